@@ -535,3 +535,47 @@ func c19r7(rc *core.RC) {
 	})
 	rc.Check(found, key, fd.Pos(), "an anonymous (embedded) field is filtered with the enclosing query: its members are promoted into the outer object and are selected by the outer query's names")
 }
+
+// ---- C19.R8 setting a query always replaces the query in the context ----
+
+// The interpreters and the marshaler helpers call SetFieldQueryToContext(ctx, code.FieldQuery) also
+// with a nil query: a member selected without a sub-query is encoded whole, and the nil value is what
+// hides the enclosing query from it. SetFieldQueryToContext therefore has to wrap the context on
+// every path; returning the context unchanged for a nil query lets the root query through.
+func c19r8(rc *core.RC) {
+	p := rc.P
+	fd := p.Func("encoder", "SetFieldQueryToContext")
+	key := "encoder.SetFieldQueryToContext/always-wraps"
+	if fd == nil {
+		rc.Unknown(key, token.NoPos, "not found")
+		return
+	}
+	rc.Touch("encoder.SetFieldQueryToContext")
+	info := p.Info(fd)
+	n, ok := 0, true
+	var q types.Object
+	if ps := fd.Type.Params.List; len(ps) > 0 {
+		last := ps[len(ps)-1]
+		if len(last.Names) > 0 {
+			q = info.Defs[last.Names[len(last.Names)-1]]
+		}
+	}
+	ast.Inspect(fd.Body, func(m ast.Node) bool {
+		r, isRet := m.(*ast.ReturnStmt)
+		if !isRet {
+			return true
+		}
+		n++
+		good := false
+		if len(r.Results) == 1 {
+			if c, isCall := core.Unparen(r.Results[0]).(*ast.CallExpr); isCall && core.CalleeName(info, c) == "context.WithValue" && len(c.Args) == 3 && core.ObjOf(info, c.Args[2]) == q {
+				good = true
+			}
+		}
+		if !good {
+			ok = false
+		}
+		return true
+	})
+	rc.Check(ok && n > 0, key, fd.Pos(), "every return is context.WithValue(ctx, key, query) with the function's own query argument (%d return(s)): a nil query replaces the enclosing one instead of leaving it visible", n)
+}
